@@ -329,6 +329,9 @@ func (v *FV) locWrite(env *ExprEnv, st *State, text string, _ string) (res []tou
 		if cerr != nil {
 			return nil, cerr
 		}
+		if condT == "false" {
+			return nil, nil // the guard cannot hold in this program (e.g. a type that is not loaded)
+		}
 		before := map[string]Term{}
 		for k, x := range st.snap.over {
 			before[k] = x
